@@ -12,6 +12,7 @@
   patterns.
 -/
 import YalafiVerif.Proofs.Shell
+import YalafiVerif.Properties.PlainExtractStmt
 namespace Yalafi
 
 theorem C18_include_nodup (includes : Str → List Str) (skip : Str → Bool) (fuel : Nat) (todo out : List Str)
